@@ -5,16 +5,20 @@
   Rsa/Gen/C18.lean on every run (so an edit of those formulas breaks a proof here).
 
   External results are parameters with a contract, quantified over:
-    * `cholG`   (scipy `ldl` of G + clamp + sqrt)   contract  cholG cholGᵀ = G
-    * `whiten`  (`ldl` of U Uᵀ, `solve`)            contract  rows orthogonal, squared norm n_channel
-    * `r = sqrt signal`                              contract  r·r = signal
+    * `np.linalg.eigh(G)`  contract  G = V diag(w) Vᵀ  (+ no eigenvalue negative / clamped away)
+    * `np.linalg.qr(Uᵀ)`   contract  orthonormal columns
+      (`make_signal_exact_coded` proves the exact second moment of the *coded* steps from these;
+       `make_signal_exact` holds for any factor `cholG cholGᵀ = G` and any whitening map)
+    * `r = sqrt signal`    contract  r·r = signal
     * the standard-normal draws (`ss.norm.ppf` of the uniform draws): arbitrary matrices
-  That scipy's `ldl` meets its contract for every positive semi-definite input is *not*
-  proved (it does not, see notes/C18.md); the harness checks the contract on every real call.
+  That LAPACK meets the two contracts is *not* proved; the harness checks them on every recorded
+  result of a real call, and the model signal recomputed from them is compared with the real one.
+  `euclid_is_C01_estimator` identifies the RDM computed here with C01's coded estimator.
 -/
 import Mathlib.Analysis.Real.Sqrt
 import Mathlib.Tactic.IntervalCases
 import Rsa.Lemmas.C18
+import Rsa.Props.C01
 
 set_option linter.unusedSectionVars false
 set_option linter.unusedVariables false
@@ -60,7 +64,7 @@ theorem make_signal_exact (nCond nCh : Nat) (hch : nCond ≤ nCh) (z cholG G : M
     ∀ a b, a < nCond → b < nCond →
       gramRows nCh (makeSignal nCond nCh true z whiten cholG none) a b = (nCh : K) * G a b := by
   intro a b ha hb
-  have hw : genWidth nCond nCh = nCh := by unfold genWidth; split <;> omega
+  have hw : genWidth nCond nCh = nCh := by unfold genWidth Rsa.Gen.C18.genWidth; split <;> omega
   unfold makeSignal
   simp only [hw, if_true]
   rw [gramRows_mmul_orthogonal nCond nCh a b cholG _ (nCh : K) hW, hG a b ha hb]
@@ -109,10 +113,63 @@ theorem exact_signal_reproduces (nCond nCh nObs : Nat) (cv uniq : Nat → Nat) (
     rw [← hr]; ring
   rw [e1 a a ha ha, e1 b b hb hb, e1 a b ha hb]
   have hg := G_to_D nCond a b ha hb D hsym hdiag
-  unfold Rsa.Gen.C18.euclidNorm Rsa.Gen.C18.euclidGram
+  unfold Rsa.Gen.C01.euclidNorm Rsa.Gen.C01.euclidEntry
   push_cast
   rw [← hg]
   field_simp
+
+/-! ### the repaired `make_signal` as coded: QR for the whitening, eigh for the factor of G -/
+
+/-- `make_signal(…, make_exact=True)` with the coded steps `Qᵀ·√n_channel` and
+    `eigvec·√clamp(eigval)`: if `np.linalg.qr` returns orthonormal columns, `np.linalg.eigh`
+    returns `G = V diag(w) Vᵀ`, and no eigenvalue is negative (Euclidean-embeddable model) or
+    clamped away by the `1e-15` threshold, the signal has second moment exactly `n_channel·G` —
+    for every draw, every `n_channel ≥ n_cond` (including equality) and every rank of `G`. -/
+theorem make_signal_exact_coded [HasSqrt K] (nCond nCh : Nat) (hch : nCond ≤ nCh)
+    (z q V G : Mat K) (w : Nat → K)
+    (hsn : HasSqrt.sqrt (nCh : K) * HasSqrt.sqrt (nCh : K) = (nCh : K))
+    (hQ : ∀ a b, a < nCond → b < nCond →
+      sumTo nCh (fun c => q c a * q c b) = if a = b then 1 else 0)
+    (hV : ∀ a b, a < nCond → b < nCond → sumTo nCond (fun j => V a j * w j * V b j) = G a b)
+    (hw : ∀ j, j < nCond → Rsa.Gen.C18.eigClamp (w j) = w j ∧
+      HasSqrt.sqrt (w j) * HasSqrt.sqrt (w j) = w j) :
+    ∀ a b, a < nCond → b < nCond →
+      gramRows nCh (makeSignalCoded nCond nCh true z q w V none) a b = (nCh : K) * G a b := by
+  have hgw : genWidth nCond nCh = nCh := by
+    unfold genWidth Rsa.Gen.C18.genWidth; split <;> omega
+  unfold makeSignalCoded
+  rw [hgw]
+  apply make_signal_exact nCond nCh hch z (cholEigh w V) G (fun _ => whitenQR nCh q)
+  · intro a b ha hb
+    rw [cholEigh_gram nCond a b w V hw, hV a b ha hb]
+  · intro a b ha hb
+    exact whitenQR_gram nCh a b q hsn (hQ a b ha hb)
+
+/-- over the reals the square-root hypotheses are exactly "no negative eigenvalue" -/
+theorem real_eig_sqrt (x : ℝ) (h : 0 ≤ x) : Real.sqrt x * Real.sqrt x = x := Real.mul_self_sqrt h
+
+/-- the clamp threshold of the code leaves 0 and every eigenvalue ≥ 1e-15 unchanged -/
+theorem eig_clamp_threshold (x : K) (h : x = 0 ∨ (1 : K) / 1000000000000000 ≤ x) :
+    Rsa.Gen.C18.eigClamp x = x := eigClamp_fixed x h
+
+/-! ### link to C01: the RDM computed here *is* C01's coded Euclidean estimator -/
+
+/-- the condensed RDM vector of `k` patterns as computed in this model equals C01's coded
+    estimator (`_extract_triu_` of the Gram-form matrix, divided by the channel count) on the
+    same rows — hence, by C01's `euclid_algo_eq_spec`, the textbook squared distance of every
+    pair in `triu` order. -/
+theorem euclid_is_C01_estimator (k P : Nat) (m : Mat K) :
+    Rsa.matToVec k (euclidRdm P m)
+      = (Rsa.Calc.extractTriu (Rsa.Calc.euclidMat P ((List.range k).map (fun i => m i)))).map
+          (fun x => Rsa.Gen.C01.euclidNorm x P) := by
+  rw [Rsa.Props.C01.euclid_algo_eq_spec, Rsa.pairsOf_map, List.map_map]
+  unfold Rsa.matToVec Rsa.pairs
+  apply List.map_congr_left
+  intro p _
+  simp only [Function.comp_apply]
+  rw [euclidRdm_eq_spec]
+  unfold euclidSpec Rsa.Calc.euclidSpec
+  rw [sumTo_eq, Rsa.Calc.sumTo_eq_sum]
 
 /-- the Gram form of `calc_rdm_euclidean` is the textbook mean squared difference -/
 theorem euclid_algo_eq_spec (nCh : Nat) (M : Mat K) (a b : Nat) :
@@ -197,6 +254,27 @@ theorem simulated_rdm_eq_model (p : Params K) (cv : List Nat) (v : List K)
   rw [← hmain]
   unfold euclidRdm
   simp only [hdata]
+
+/-- end-to-end through C01's estimator: C01's coded squared-Euclidean RDM of the condition
+    means of exact-signal, zero-noise simulated data is `signal · D` -/
+theorem simulated_rdm_eq_model_C01 (p : Params K) (cv : List Nat) (v : List K)
+    (signals noises : Nat → Mat K)
+    (hcond : (uniqueSorted cv).length = p.nCond) (hch : p.nCh ≠ 0)
+    (hs : HasSqrt.sqrt p.signal * HasSqrt.sqrt p.signal = p.signal)
+    (hn : HasSqrt.sqrt p.noise = 0)
+    (hU : ∀ i, i < nSignalCalls p.same p.nSim → ∀ a b, a < p.nCond → b < p.nCond →
+      gramRows p.nCh (signals i) a b
+        = (p.nCh : K) * gramOfRdm p.nCond (squareform p.nCond v) a b) :
+    ∀ ds ∈ makeDatasets p (.vec cv) signals noises,
+      (Rsa.Calc.extractTriu (Rsa.Calc.euclidMat ds.nCh ((List.range p.nCond).map (fun i =>
+          condMean ds.nObs (fun o => cv.getD o 0) (fun i => (uniqueSorted cv).getD i 0) ds.data i)))).map
+          (fun x => Rsa.Gen.C01.euclidNorm x ds.nCh)
+        = (Rsa.pairs p.nCond).map (fun q => p.signal * squareform p.nCond v q.1 q.2) := by
+  intro ds hds
+  rw [← euclid_is_C01_estimator]
+  have h := simulated_rdm_eq_model p cv v signals noises hcond hch hs hn hU ds hds
+  unfold rdmByCondition at h
+  simpa only [hcond] using h
 
 /-! ### descriptors -/
 
@@ -387,7 +465,20 @@ example : ∀ a b, a < 3 → b < 3 →
     (by intro a b ha hb; interval_cases a <;> interval_cases b <;> decide +kernel)
 
 /-- a square root on ℚ that is exact on the numbers used below -/
-local instance exSqrt : HasSqrt ℚ := ⟨fun x => if x = 4 then 2 else 0⟩
+local instance exSqrt : HasSqrt ℚ := ⟨fun x => if x = 4 then 2 else if x = 1 then 1 else 0⟩
+
+/-- orthonormal columns (Hadamard / 2), eigen-decomposition V = I, w = (4, 1, 0) of G = diag(4,1,0) -/
+def exQ : Mat ℚ := ofLists [[1/2, 1/2, 1/2], [1/2, -1/2, 1/2], [1/2, 1/2, -1/2], [1/2, -1/2, -1/2]]
+def exV : Mat ℚ := fun i j => if i = j then 1 else 0
+def exEig : Nat → ℚ := fun j => if j = 0 then 4 else if j = 1 then 1 else 0
+
+example : ∀ a b, a < 3 → b < 3 →
+    gramRows 4 (makeSignalCoded 3 4 true (fun _ _ => 0) exQ exEig exV none) a b
+      = ((4 : Nat) : ℚ) * (fun i j => sumTo 3 (fun l => exV i l * exEig l * exV j l)) a b :=
+  make_signal_exact_coded 3 4 (by norm_num) _ exQ exV _ exEig (by decide +kernel)
+    (by intro a b ha hb; interval_cases a <;> interval_cases b <;> decide +kernel)
+    (fun _ _ _ _ => rfl)
+    (by intro j hj; interval_cases j <;> decide +kernel)
 
 example : ∀ ds ∈ makeDatasets (α := ℚ)
       { nCond := 3, nCh := 4, nSim := 2, signal := 4, noise := 0 }
